@@ -163,3 +163,5 @@ def plumbing_check(prefix):
 
 
 CHECKS += _with_summaries()
+
+VALIDATE_LAYOUT_PRIMS = True  # [V] the layout primitive contracts are sampled against real torch on every run
